@@ -19,7 +19,7 @@ fn focus_for(prop: &str) -> Vec<(Focus, &'static str, u64)> {
     // (focus, part name, share of the budget in percent)
     match prop {
         "C02" => vec![(Focus::Map, "raw-map-spellings", 75), (Focus::Sync, "raw-sync-placements", 25)],
-        "C03" => vec![(Focus::Sync, "raw-sync-placements", 75), (Focus::Map, "raw-map-spellings", 25)],
+        "C03" => vec![(Focus::Sync, "raw-sync-placements", 60), (Focus::Map, "raw-map-spellings", 20), (Focus::Links, "raw-link-accounting", 20)],
         "C04" => vec![(Focus::Protocol, "raw-fault-conversations", 60), (Focus::Sync, "raw-sync-placements", 15), (Focus::Links, "raw-link-accounting", 25)],
         "C14" => vec![(Focus::Supply, "raw-supply-bursts", 100)],
         "C20" => vec![(Focus::Links, "raw-link-accounting", 80), (Focus::Protocol, "raw-fault-conversations", 20)],
